@@ -350,6 +350,11 @@ func genLease(t *rapid.T, p *Program) {
 		case 1:
 			cut = "suffragecut" // a follower is demoted under this leader first, and stays on its side of the cut
 		}
+		if rapid.IntRange(0, 3).Draw(t, "outageFirst") == 0 {
+			// a voter comes back from a long outage and the leader's majority then depends on it (C13/R2)
+			p.Actions = append(p.Actions, Action{Op: "outagecut", Dt: rapid.IntRange(0, 60).Draw(t, "outageAt"), N: rapid.IntRange(0, 3).Draw(t, "who"), Arg: rapid.IntRange(0, 3).Draw(t, "outage")})
+			p.Actions = append(p.Actions, Action{Op: "tick", Dt: oneOf(t, "afterOutage", 300, 600)})
+		}
 		p.Actions = append(p.Actions, Action{Op: cut, Dt: rapid.IntRange(0, 120).Draw(t, "cutAt"),
 			N: rapid.IntRange(0, 2).Draw(t, "keepVoters"), Arg: rapid.IntRange(0, 1).Draw(t, "keepNonvoters")})
 		p.Actions = append(p.Actions, Action{Op: "tick", Dt: oneOf(t, "watch", 150, 300, 500)})
